@@ -31,4 +31,6 @@ class SameID:
   def _import_tags_of_previous_group_definition(self, previous):
     for tag in previous.tagnames:
       if not self.get(tag):
+        # (with its datatype: the default one for the value may differ)
+        self.set_datatype(tag, previous.get_datatype(tag))
         self.set(tag, previous.get(tag))
